@@ -10,7 +10,7 @@ import shutil
 import sys
 import tomllib
 
-from . import boot, disk, simfs, synth
+from . import boot, disk, simfs, synth, watchdog
 from .sim import SIM, quiet
 
 BACKENDS = ("simfs", "simfs_opt", "local", "file", "memory")
@@ -166,7 +166,8 @@ class World:
         return opts
 
     def open(self, spelling=None, **kw):
-        return code().open_alos2(self.url(spelling), backend_options=self.options(**kw))
+        with watchdog.deadline():
+            return code().open_alos2(self.url(spelling), backend_options=self.options(**kw))
 
     def cli(self, image, rpc=None, cache_root=None):
         """run the console entry point ``ceos-alos2-create-cache`` in-process"""
@@ -184,7 +185,7 @@ class World:
         sys.argv = argv
         self.cli_stderr = _io.StringIO()
         try:
-            with contextlib.redirect_stderr(self.cli_stderr):
+            with contextlib.redirect_stderr(self.cli_stderr), watchdog.deadline():
                 main()
             return 0
         except SystemExit as e:
